@@ -42,6 +42,19 @@ def log(msg):
 REGISTRY = os.path.join(VERIF, "tools", "harness", "zz_registry_gen.go")
 
 
+def modfile_args():
+    """the tools module replaces github.com/free5gc/nas by /repo; when VERIF_REPO points elsewhere (a scratch worktree used to
+    try a seeded change without touching /repo) build with an alternate modfile whose replace names that tree"""
+    if REPO == "/repo":
+        return []
+    tools = os.path.join(VERIF, "tools")
+    alt = os.path.join(BUILD, "alt.go.mod")
+    os.makedirs(BUILD, exist_ok=True)
+    open(alt, "w").write(open(os.path.join(tools, "go.mod")).read().replace("=> /repo", "=> " + REPO))
+    shutil.copyfile(os.path.join(REPO, "go.sum"), os.path.join(BUILD, "alt.go.sum"))
+    return ["-modfile=" + alt]
+
+
 def build_tools(names=("extract",)):
     """go build extract / harness against /repo's working tree (hooks on). The harness is built after the
     translator ran, because the translator regenerates the harness's nasType registry."""
@@ -51,7 +64,7 @@ def build_tools(names=("extract",)):
         out = os.path.join(BUILD, name)
         if name == "harness" and os.path.exists(out):
             os.remove(out)  # never reuse a stale binary: it links the repo
-        rc, o = sh(["go", "build", "-tags", "verif", "-o", out, "./" + name], cwd=tools, env=GOENV, timeout=600)
+        rc, o = sh(["go", "build"] + modfile_args() + ["-tags", "verif", "-o", out, "./" + name], cwd=tools, env=GOENV, timeout=600)
         if rc != 0:
             return False, f"go build {name} failed:\n{o}"
     return True, ""
@@ -266,7 +279,8 @@ def write_replay(prop, payload):
 
 
 def write_evidence(prop, ev):
-    d = os.path.join(VERIF, "evidence")
+    # evidence/<id>.json describes runs against /repo itself; a trial against another tree (VERIF_REPO) is kept apart
+    d = os.path.join(VERIF, "evidence") if REPO == "/repo" else os.path.join(BUILD, "evidence-trial")
     os.makedirs(d, exist_ok=True)
     json.dump(ev, open(os.path.join(d, f"{prop}.json"), "w"), indent=1)
 
@@ -282,7 +296,7 @@ def build_race_harness():
     if os.path.exists(out):
         os.remove(out)
     env = dict(GOENV, CGO_ENABLED="1")
-    rc, o = sh(["go", "build", "-race", "-tags", "verif", "-o", out, "./harness"], cwd=tools, env=env, timeout=900)
+    rc, o = sh(["go", "build"] + modfile_args() + ["-race", "-tags", "verif", "-o", out, "./harness"], cwd=tools, env=env, timeout=900)
     return rc == 0, o
 
 
@@ -295,9 +309,22 @@ def run_conc(seed, per_domain, goroutines=64, timeout=3000):
             p = subprocess.run([os.path.join(BUILD, "harness"), "gen", d, "-seed", str(seed), "-n", "60", "-tier", "quick", "-facts", FACTS],
                                stdout=subprocess.PIPE, stderr=subprocess.PIPE, text=True)
             lines = p.stdout.splitlines()
-            # a deterministic spread over the stream, not just its head
-            step = max(1, len(lines) // per_domain)
-            f.write("\n".join(lines[::step][:per_domain]) + "\n")
+            # a deterministic spread over the stream, stratified by op kind (first two tokens) so that rare kinds (encoders of
+            # one element type, say) are not crowded out by the many decode inputs: round-robin over the kinds
+            kinds = {}
+            for l in lines:
+                kinds.setdefault(" ".join(l.split()[:2]), []).append(l)
+            # half the budget: uniform spread over the stream; the other half: round-robin over the kinds
+            ustep = max(1, 2 * len(lines) // per_domain)
+            picked, depth = lines[::ustep][:per_domain // 2], 0
+            while len(picked) < per_domain and any(depth < len(v) for v in kinds.values()):
+                for k in sorted(kinds):
+                    v = kinds[k]
+                    step = max(1, len(v) * len(kinds) // per_domain)
+                    if depth * step < len(v) and len(picked) < per_domain:
+                        picked.append(v[depth * step])
+                depth += 1
+            f.write("\n".join(picked) + "\n")
     n = sum(1 for _ in open(ops))
     env = dict(os.environ, GORACE="halt_on_error=1 exitcode=66", GOMEMLIMIT="8GiB")
     with open(ops) as i:
